@@ -22,6 +22,7 @@ ANCHORS = [
     ("src/easynetwork/serializers/base_stream.py", "FixedSizePacketSerializer.buffered_incremental_deserialize"),
     ("src/easynetwork/serializers/base_stream.py", "FixedSizePacketSerializer.create_deserializer_buffer"),
     ("src/easynetwork/serializers/line.py", "StringLineSerializer.incremental_serialize"),
+    ("src/easynetwork/serializers/base_stream.py", "FixedSizePacketSerializer.incremental_serialize"),
     ("src/easynetwork/serializers/line.py", "StringLineSerializer.incremental_deserialize"),
     ("src/easynetwork/serializers/line.py", "StringLineSerializer.buffered_incremental_deserialize"),
     ("src/easynetwork/serializers/wrapper/base64.py", "Base64EncoderSerializer.serialize"),
@@ -135,7 +136,36 @@ def validity(cfgd, kind, cfg, stream, sent, pkts):
     return True
 
 
+def ser_cases(tier, rng, escalate):
+    """the sending side (kind 10 of Run/Stream.v): incremental_serialize of line / AutoSeparated / FixedSize"""
+    thorough = tier == "thorough" or escalate
+    n = 400 if thorough else 60
+    seps = [b"\n", b"\r", b"\r\n", b"aa", b"aba", b"abc"]
+    for _ in range(n):
+        sep = rng.choice(seps)
+        alphabet = bytes(set(sep)) + b"xy \r\n"
+        ln = rng.choice([0, 1, 2, 3, 5, 8])
+        data = bytes(rng.choice(alphabet) for _ in range(ln))
+        if rng.random() < 0.3:
+            data += sep[: rng.randrange(1, len(sep) + 1)]          # ends with a (partial) separator
+        if sep in sc.NEWLINES:
+            yield dict(input=[10, 0, [sep], data, [b"line", rng.choice([b"ascii", b"latin-1"])]],
+                       tags=["kind10", "ser-line", "ends-with-sep-byte" if data[-1:] and data[-1] in sep else "plain"],
+                       nontrivial=bool(data) and data[-1] in sep)
+        check = rng.choice([0, 1])
+        yield dict(input=[10, 1, [sep, check], data, [b"autosep"]],
+                   tags=["kind10", "ser-autosep", f"check{check}", "contains-sep" if sep in data else "no-sep"],
+                   nontrivial=bool(data) and (sep in data or data[-1] in sep))
+        size = rng.choice([1, 3, 4])
+        yield dict(input=[10, 2, [size], data, [b"fixed"]], tags=["kind10", "ser-fixed"], nontrivial=len(data) == size)
+
+
 def cases(tier, rng, escalate):
+    yield from ser_cases(tier, rng, escalate)
+    yield from recv_cases(tier, rng, escalate)
+
+
+def recv_cases(tier, rng, escalate):
     thorough = tier == "thorough" or escalate
     reps = 14 if thorough else 3
     for cfgd in configs(thorough):
@@ -177,10 +207,59 @@ def cases(tier, rng, escalate):
                                nontrivial=bool(npk >= 2 and len(chunks) >= 2))
 
 
-run_impl = sc.run_impl
+def _ser_setup(inp):
+    _k, variant, cfg, data, impl = inp[:5]
+    if variant == 0:
+        from easynetwork.serializers.line import StringLineSerializer
+        ser = StringLineSerializer(sc.NEWLINES[cfg[0]], encoding=impl[1].decode(), limit=1000)
+        return ser, data.decode("latin-1")
+    if variant == 1:
+        return sc.IdAutoSep(cfg[0], 1000, incremental_serialize_check_separator=bool(cfg[1])), data
+    return sc.IdFixed(cfg[0]), data
+
+
+def run_impl(inp):
+    if inp[0] != 10:
+        return sc.run_impl(inp)
+    ser, packet = _ser_setup(inp)
+    if inp[1] == 0 and inp[4][1] == b"ascii" and any(b >= 128 for b in inp[3]):
+        return [2]
+    try:
+        return [0, [bytes(c) for c in ser.incremental_serialize(packet)]]
+    except ValueError:
+        return [1]
+
+
+def ser_oracle(inp):
+    """a transmittable packet must come out of the receiving side unchanged"""
+    _k, variant, cfg, data, impl = inp[:5]
+    out = run_impl(inp)
+    if out[0] != 0:
+        return None
+    stream = b"".join(out[1])
+    ser, packet = _ser_setup(inp)
+    if variant == 2:
+        return None if stream == data else f"fixed-size frame differs from serialize(): {stream!r}"
+    sep = cfg[0]
+    if not data or (data + sep).find(sep) != len(data):
+        return None        # documented as not transmittable (empty, or contains / ends into the separator)
+    from easynetwork.lowlevel._stream import StreamDataConsumer
+    from easynetwork.protocol import StreamProtocol
+    consumer = StreamDataConsumer(StreamProtocol(ser))
+    try:
+        got = consumer.next(stream)
+    except StopIteration:
+        return f"packet {packet!r} serialized to {stream!r} is not received back (incomplete frame)"
+    except Exception as exc:
+        return f"packet {packet!r} serialized to {stream!r} raises {type(exc).__name__} on receipt"
+    if got != packet or bytes(consumer.get_buffer()):
+        return f"packet {packet!r} serialized to {stream!r} is received as {got!r}"
+    return None
 
 
 def oracle(inp):
+    if inp[0] == 10:
+        return ser_oracle(inp)
     kind, cfg, _dec, chunks, impl, sent, valid = inp[:7]
     if not valid:
         return None
@@ -204,6 +283,11 @@ def signature(inp, failure):
 
 
 def shrink(inp):
+    if inp[0] == 10:
+        data = inp[3]
+        for i in range(len(data)):
+            yield [10, inp[1], inp[2], data[:i] + data[i + 1:], inp[4]]
+        return
     kind, cfg, dec, chunks = inp[:4]
     for i in range(len(chunks) - 1):
         yield [kind, cfg, dec, chunks[:i] + [chunks[i] + chunks[i + 1]] + chunks[i + 2:]] + list(inp[4:])
